@@ -159,7 +159,9 @@ pub fn record_rewrite(a: &HashMap<String, String>) -> i32 {
             let olen = 1 + rng.below(4);
             let mut out: Vec<Value> = vec![json!({"k": "text", "v": format!("R{k}")})];
             for _ in 0..olen {
-                out.push(if rng.chance(1, 2) { json!({"k": "ref", "i": 1 + rng.below(6)}) } else { json!({"k": "text", "v": rng.pick(&alpha)}) });
+                // $n references: mostly 1..6, sometimes two digits with a zero ($10, $20) - beyond most inputs, so '*'
+                let refno = |rng: &mut Rng| -> usize { if rng.chance(1, 6) { *rng.pick(&[10usize, 20, 11]) } else { 1 + rng.below(6) } };
+                out.push(if rng.chance(1, 2) { json!({"k": "ref", "i": refno(&mut rng)}) } else { json!({"k": "text", "v": rng.pick(&alpha)}) });
             }
             rules.push(json!({"pat": pat, "out": out}));
         }
@@ -189,7 +191,7 @@ pub fn record_rewrite(a: &HashMap<String, String>) -> i32 {
                 }
                 lists.push(fs);
             } else {
-                let len = rng.below(ncols + 2);
+                let len = if rng.chance(1, 8) { 10 + rng.below(3) } else { rng.below(ncols + 2) };
                 lists.push((0..len).map(|_| rng.pick(&alpha).to_string()).collect::<Vec<_>>());
             }
         }
